@@ -14,7 +14,7 @@ From Coq Require Import Lia ZifyN ZifyBool ZifyNat.
 From H2T Require Import Base Tagged Wrap Sub Css Dom Render Api CssParse.
 From H2T Require Import Spec.Cascade Spec.Selector.
 From H2T Require Import Proofs.CssTotal Proofs.CssRoundTrip.
-From H2T Require Import Proofs.CascadeProof Proofs.RenderWidth Proofs.Inherit Proofs.CascadeDom.
+From H2T Require Import Proofs.CascadeProof Proofs.Prune Proofs.RenderWidth Proofs.AnnBalance Proofs.Inherit Proofs.CascadeDom.
 
 Local Arguments N.add : simpl never.
 Local Arguments N.sub : simpl never.
@@ -33,7 +33,7 @@ Local Open Scope N_scope.
 (* ================================================================== *)
 
 Lemma attr_is_iff : forall k l, attr_is k l = true <-> cps k = l.
-Proof. intros k l. unfold attr_is, is_ascii_str. apply lN_eqb_eq. Qed.
+Proof. intros k l. unfold attr_is, is_ascii_str. apply CascadeProof.lN_eqb_eq. Qed.
 
 Lemma attr_is_false : forall k l, attr_is k l = false <-> cps k <> l.
 Proof.
@@ -153,3 +153,865 @@ Proof.
 Qed.
 Print Assumptions colour_attr_no_bg.
 Print Assumptions bg_attr_no_colour.
+
+(* ================================================================== *)
+(* 3. Through the cascade                                              *)
+(* ================================================================== *)
+
+Definition no_attr (name : list N) (attrs : list (text * text)) : bool :=
+  forallb (fun kv => negb (attr_is (fst kv) name)) attrs.
+Definition remove_attr (name : list N) (attrs : list (text * text)) : list (text * text) :=
+  filter (fun kv => negb (attr_is (fst kv) name)) attrs.
+
+Lemma no_attr_app name a b : no_attr name (a ++ b) = no_attr name a && no_attr name b.
+Proof. apply forallb_app. Qed.
+
+(* ---------- the shape of the inline declarations ---------- *)
+Lemma nostyle_nonimp : forall attrs ls, Forall2 attr_spec attrs ls ->
+  no_attr s_style attrs = true -> Forall (fun d => sd_important d = false) (concat ls).
+Proof.
+  induction 1 as [|kv l attrs ls Hs HF IH]; intros Hn; cbn [concat]; [constructor|].
+  cbn [no_attr forallb] in Hn. apply andb_prop in Hn. destruct Hn as [Hk Hn].
+  apply Forall_app. split; [|apply IH, Hn].
+  inversion Hs as [k0 v0 l0 Hk0 Hp|k0 v0 c Hk0 Hp|k0 v0 Hk0 Hp|k0 v0 c Hk0 Hp|k0 v0 Hk0 Hp|k0 v0 H1 H2 H3];
+    subst; cbn [fst] in Hk.
+  - apply attr_is_iff in Hk0. rewrite Hk0 in Hk. discriminate.
+  - destruct c as [[r g] b]. repeat constructor.
+  - constructor.
+  - destruct c as [[r g] b]. repeat constructor.
+  - constructor.
+  - constructor.
+Qed.
+
+Lemma nostyle_none {A} (f : style -> option A) (name : list N) :
+  (forall k v l, cps k <> s_style -> cps k <> name -> attr_spec (k, v) l ->
+                 Forall (fun d => f (sd_style d) = None) l) ->
+  forall attrs ls, Forall2 attr_spec attrs ls ->
+  no_attr s_style attrs = true -> no_attr name attrs = true ->
+  Forall (fun d => f (sd_style d) = None) (concat ls).
+Proof.
+  intros Hf. induction 1 as [|[k v] l attrs ls Hs HF IH]; intros Hn Hm; cbn [concat]; [constructor|].
+  cbn [no_attr forallb fst] in Hn, Hm.
+  apply andb_prop in Hn. destruct Hn as [Hk Hn]. apply andb_prop in Hm. destruct Hm as [Hk' Hm].
+  apply Forall_app. split; [|apply IH; assumption].
+  apply (Hf k v l); [| |exact Hs].
+  - apply attr_is_false. destruct (attr_is k s_style); [discriminate|reflexivity].
+  - apply attr_is_false. destruct (attr_is k name); [discriminate|reflexivity].
+Qed.
+
+Lemma other_attr_no_bg : forall k v l, cps k <> s_style -> cps k <> s_bgcolor -> attr_spec (k, v) l ->
+  Forall (fun d => st_bg (sd_style d) = None) l.
+Proof.
+  intros k v l H1 H2 H. inversion H; subst; try contradiction; try constructor.
+  - destruct c as [[r g] b]. reflexivity.
+  - constructor.
+Qed.
+Lemma other_attr_no_colour : forall k v l, cps k <> s_style -> cps k <> s_colorattr -> attr_spec (k, v) l ->
+  Forall (fun d => st_colour (sd_style d) = None) l.
+Proof.
+  intros k v l H1 H2 H. inversion H; subst; try contradiction; try constructor.
+  - destruct c as [[r g] b]. reflexivity.
+  - constructor.
+Qed.
+
+(* ---------- the cell ---------- *)
+Definition okspec (s : spec) : Prop := sp_inline s = false \/ s = spec_inline.
+(* a cell that an inline non-important author declaration overrides *)
+Definition Qc {A} (w : withspec A) : Prop :=
+  ws_val w = None \/ (ws_important w = false /\ okspec (ws_spec w)).
+
+Lemma Qc_default {A} : Qc (@ws_default A).
+Proof. left. reflexivity. Qed.
+
+Lemma feed_Qc {A} (d : cdecl A) w :
+  cd_important d = false -> okspec (cd_spec d) -> Qc w -> Qc (feed w d).
+Proof.
+  intros Hi Hs Hw. unfold feed, maybe_update. rewrite Hi.
+  assert (Hu : Qc (mkws (Some (cd_val d)) (cd_origin d) (cd_spec d) false)).
+  { right. split; [reflexivity|exact Hs]. }
+  destruct (ws_val w); [|exact Hu].
+  repeat match goal with |- Qc (if ?b then _ else _) => destruct b end; assumption.
+Qed.
+
+Lemma fold_feed_Qc {A} (l : list (cdecl A)) : forall w,
+  Forall (fun d => cd_important d = false /\ okspec (cd_spec d)) l -> Qc w -> Qc (fold_left feed l w).
+Proof.
+  induction l as [|d l IH]; intros w HF Hw; cbn [fold_left]; [exact Hw|].
+  inversion HF as [|? ? [H1 H2] HF']; subst. apply IH; [exact HF'|]. apply feed_Qc; assumption.
+Qed.
+
+Lemma spec_lt_inline_inline : spec_lt spec_inline spec_inline = false.
+Proof. vm_compute. reflexivity. Qed.
+
+Lemma feed_inline_wins {A} (v : A) w : Qc w ->
+  feed w (mkcd false OAuthor spec_inline v) = mkws (Some v) OAuthor spec_inline false.
+Proof.
+  intros Hw. unfold feed, maybe_update. cbn [cd_important cd_origin cd_spec cd_val].
+  destruct (ws_val w) eqn:Ev; [|reflexivity].
+  destruct Hw as [Hw|[Hi Hs]]; [congruence|]. rewrite Hi. cbn [Bool.eqb negb].
+  assert (Hsp : spec_lt spec_inline (ws_spec w) = false).
+  { destruct Hs as [Hs| ->]; [|apply spec_lt_inline_inline].
+    unfold spec_lt. cbn [spec_inline sp_inline]. rewrite Hs. reflexivity. }
+  rewrite Hsp.
+  destruct (ws_origin w); cbn [origin_rank];
+    repeat match goal with
+           | |- context [if ?b then _ else _] => let E := fresh "E" in destruct b eqn:E; try lia
+           end; reflexivity.
+Qed.
+
+Lemma proj_app {A} (f : style -> option A) which a b :
+  proj f which (a ++ b) = proj f which a ++ proj f which b.
+Proof. unfold proj. apply flat_map_app. Qed.
+
+Lemma applicable_split sd p inl : applicable sd p inl = applicable sd p [] ++ inline_decls inl.
+Proof. unfold applicable. cbn [inline_decls map]. rewrite app_nil_r, <- !app_assoc. reflexivity. Qed.
+
+Lemma proj_inline_cons {A} (f : style -> option A) d l :
+  proj f None (inline_decls (d :: l)) =
+  match f (sd_style d) with
+  | Some v => [mkcd (sd_important d) OAuthor spec_inline v]
+  | None => []
+  end ++ proj f None (inline_decls l).
+Proof. reflexivity. Qed.
+
+Lemma proj_inline_none {A} (f : style -> option A) l :
+  Forall (fun d => f (sd_style d) = None) l -> proj f None (inline_decls l) = [].
+Proof.
+  induction 1 as [|d l Hd HF IH]; [reflexivity|]. rewrite proj_inline_cons, Hd, IH. reflexivity.
+Qed.
+
+Lemma proj_inline_ok {A} (f : style -> option A) l :
+  Forall (fun d => sd_important d = false) l ->
+  Forall (fun d => cd_important d = false /\ okspec (cd_spec d)) (proj f None (inline_decls l)).
+Proof.
+  induction 1 as [|d l Hd HF IH]; [constructor|]. rewrite proj_inline_cons.
+  apply Forall_app. split; [|exact IH].
+  destruct (f (sd_style d)); constructor; [|constructor].
+  cbn [cd_important cd_spec]. split; [exact Hd|right; reflexivity].
+Qed.
+
+Lemma proj_sheet_okspec {A} (f : style -> option A) which sd p inl :
+  Forall (fun d => okspec (cd_spec d)) (proj f which (applicable sd p inl)).
+Proof.
+  apply Forall_forall. intros d Hd. unfold proj in Hd. apply in_flat_map in Hd.
+  destruct Hd as (g & Hg & Hd). unfold proj_decl in Hd.
+  destruct (pseudo_eqb (g_pseudo g) which); [|destruct Hd].
+  destruct (f (g_style g)); [|destruct Hd]. destruct Hd as [<-|[]]. cbn [cd_spec].
+  destruct (applicable_keys sd p inl g Hg) as [_ H].
+  unfold okspec. destruct (sp_inline (g_spec g)) eqn:E; [right; apply H; reflexivity|left; reflexivity].
+Qed.
+
+(* the generic statement: property f with cell get; the attributes are
+   pre ++ (k, v) :: post, the attribute (k, v) yields exactly the declaration st with value c,
+   no style attribute anywhere, nothing in post yields a declaration of the property, and no
+   !important sheet declaration of the property applies to the element *)
+Section AttrCell.
+  Context {A : Type}.
+  Variables (f : style -> option A) (get : cscore -> withspec A).
+  Hypothesis HL : lens f get.
+
+  Lemma attr_cell_gen : forall sd p ipre st c ipost,
+    Forall (fun d => sd_important d = false) ipre ->
+    f st = Some c ->
+    Forall (fun d => f (sd_style d) = None) ipost ->
+    Forall (fun d => cd_important d = false) (proj f None (applicable sd p [])) ->
+    get (cs_core (computed_style sd p (ipre ++ mksd st false :: ipost))) =
+    mkws (Some c) OAuthor spec_inline false.
+  Proof.
+    intros sd p ipre st c ipost Hpre Hst Hpost Hsheet.
+    change (cs_core ?x) with (core_at None x).
+    rewrite (computed_cell f get HL), applicable_split, proj_app.
+    unfold inline_decls. rewrite map_app. fold (inline_decls ipre). cbn [map].
+    fold (inline_decls ipost). rewrite proj_app.
+    change (decl_of OAuthor spec_inline None (mksd st false) :: inline_decls ipost)
+      with (inline_decls (mksd st false :: ipost)).
+    rewrite proj_inline_cons. cbn [sd_style sd_important]. rewrite Hst.
+    rewrite (proj_inline_none f ipost Hpost), app_nil_r.
+    rewrite !fold_left_app. cbn [fold_left]. apply feed_inline_wins.
+    apply fold_feed_Qc; [apply proj_inline_ok, Hpre|].
+    apply fold_feed_Qc; [|apply Qc_default].
+    pose proof (proj_sheet_okspec f None sd p []) as Hk.
+    rewrite Forall_forall in *. intros d Hd. split; [apply Hsheet, Hd|apply Hk, Hd].
+  Qed.
+End AttrCell.
+
+Lemma Forall2_app_inv_l' {X Y} (R : X -> Y -> Prop) a x b ls :
+  Forall2 R (a ++ x :: b) ls ->
+  exists la y lb, ls = la ++ y :: lb /\ Forall2 R a la /\ R x y /\ Forall2 R b lb.
+Proof.
+  intros H. apply Forall2_app_inv_l in H. destruct H as (la & l2 & Ha & Hb & ->).
+  inversion Hb as [|? y ? lb Hx Hb']; subst. exists la, y, lb. auto.
+Qed.
+
+(* THE BACKGROUND CELL of an element with a bgcolor attribute *)
+Theorem bgcolor_attr_cell : forall sd p pre k v post c,
+  cps k = s_bgcolor -> parse_color_attribute v = Ok (Some c) ->
+  no_attr s_style (pre ++ (k, v) :: post) = true ->
+  no_attr s_bgcolor post = true ->
+  Forall (fun d => cd_important d = false) (proj st_bg None (applicable sd p [])) ->
+  exists inl, inline_styles (pre ++ (k, v) :: post) = Ok inl /\
+    c_bg (cs_core (computed_style sd p inl)) = mkws (Some c) OAuthor spec_inline false.
+Proof.
+  intros sd p pre k v post c Hk Hv Hns Hnb Hsheet.
+  destruct (inline_styles_always (pre ++ (k, v) :: post)) as (ls & HF & Hi).
+  exists (concat ls). split; [exact Hi|].
+  apply Forall2_app_inv_l' in HF. destruct HF as (la & y & lb & -> & Ha & Hy & Hb).
+  rewrite no_attr_app in Hns. apply andb_prop in Hns. destruct Hns as [Hs1 Hs2].
+  cbn [no_attr forallb] in Hs2. apply andb_prop in Hs2. destruct Hs2 as [_ Hs2].
+  assert (y = [bg_decl c]) as ->.
+  { destruct (bg_attr_decls k v y Hk Hy) as [->|(c' & Hc' & ->)]; [|congruence].
+    inversion Hy; subst; try congruence; try (rewrite Hk in *; discriminate); exfalso; auto. }
+  rewrite concat_app. cbn [concat app]. destruct c as [[r g] b]. cbn [bg_decl].
+  apply (attr_cell_gen st_bg c_bg lens_bg); [|reflexivity| |exact Hsheet].
+  - apply nostyle_nonimp with (attrs := pre); assumption.
+  - apply (nostyle_none st_bg s_bgcolor other_attr_no_bg post); assumption.
+Qed.
+Print Assumptions bgcolor_attr_cell.
+
+(* THE COLOUR CELL of an element with a color attribute *)
+Theorem color_attr_cell : forall sd p pre k v post c,
+  cps k = s_colorattr -> parse_color_attribute v = Ok (Some c) ->
+  no_attr s_style (pre ++ (k, v) :: post) = true ->
+  no_attr s_colorattr post = true ->
+  Forall (fun d => cd_important d = false) (proj st_colour None (applicable sd p [])) ->
+  exists inl, inline_styles (pre ++ (k, v) :: post) = Ok inl /\
+    c_colour (cs_core (computed_style sd p inl)) = mkws (Some c) OAuthor spec_inline false.
+Proof.
+  intros sd p pre k v post c Hk Hv Hns Hnb Hsheet.
+  destruct (inline_styles_always (pre ++ (k, v) :: post)) as (ls & HF & Hi).
+  exists (concat ls). split; [exact Hi|].
+  apply Forall2_app_inv_l' in HF. destruct HF as (la & y & lb & -> & Ha & Hy & Hb).
+  rewrite no_attr_app in Hns. apply andb_prop in Hns. destruct Hns as [Hs1 Hs2].
+  cbn [no_attr forallb] in Hs2. apply andb_prop in Hs2. destruct Hs2 as [_ Hs2].
+  assert (y = [colour_decl c]) as ->.
+  { destruct (colour_attr_decls k v y Hk Hy) as [->|(c' & Hc' & ->)]; [|congruence].
+    inversion Hy; subst; try congruence; try (rewrite Hk in *; discriminate); exfalso; auto. }
+  rewrite concat_app. cbn [concat app]. destruct c as [[r g] b]. cbn [colour_decl].
+  apply (attr_cell_gen st_colour c_colour lens_colour); [|reflexivity| |exact Hsheet].
+  - apply nostyle_nonimp with (attrs := pre); assumption.
+  - apply (nostyle_none st_colour s_colorattr other_attr_no_colour post); assumption.
+Qed.
+Print Assumptions color_attr_cell.
+
+(* ---------- the attribute does not touch the other cells ---------- *)
+Definition is_bg (s : style) : bool := match s with SBgColour _ _ _ => true | _ => false end.
+Definition is_fg (s : style) : bool := match s with SColour _ _ _ => true | _ => false end.
+Definition keep (drop : style -> bool) (l : list styledecl) : list styledecl :=
+  filter (fun d => negb (drop (sd_style d))) l.
+
+Lemma keep_app drop a b : keep drop (a ++ b) = keep drop a ++ keep drop b.
+Proof. apply filter_app. Qed.
+
+Lemma proj_keep {A} (f : style -> option A) (drop : style -> bool) which :
+  (forall s, drop s = true -> f s = None) ->
+  forall l, proj f which (inline_decls l) = proj f which (inline_decls (keep drop l)).
+Proof.
+  intros Hf. induction l as [|d l IH]; [reflexivity|].
+  cbn [keep filter]. fold (keep drop l).
+  destruct (drop (sd_style d)) eqn:E; cbn [negb].
+  - rewrite <- IH. cbn [inline_decls map proj flat_map]. fold (inline_decls l). fold (proj f which (inline_decls l)).
+    unfold proj_decl at 1. cbn [decl_of g_pseudo g_style]. rewrite (Hf _ E).
+    destruct (pseudo_eqb None which); reflexivity.
+  - cbn [inline_decls map proj flat_map]. fold (inline_decls l). fold (inline_decls (keep drop l)).
+    fold (proj f which (inline_decls l)). fold (proj f which (inline_decls (keep drop l))).
+    rewrite IH. reflexivity.
+Qed.
+
+Lemma remove_attr_spec (name : list N) (drop : style -> bool) :
+  (forall k v l, cps k = name -> attr_spec (k, v) l -> keep drop l = []) ->
+  forall attrs ls, Forall2 attr_spec attrs ls ->
+  exists ls', Forall2 attr_spec (remove_attr name attrs) ls' /\
+              keep drop (concat ls) = keep drop (concat ls').
+Proof.
+  intros Hn. induction 1 as [|[k v] l attrs ls Hs HF IH].
+  - exists []. split; [constructor|reflexivity].
+  - destruct IH as (ls' & HF' & E). cbn [remove_attr filter fst]. fold (remove_attr name attrs).
+    destruct (attr_is k name) eqn:Ek; cbn [negb].
+    + exists ls'. split; [exact HF'|]. cbn [concat]. rewrite keep_app.
+      apply attr_is_iff in Ek. rewrite (Hn k v l Ek Hs). exact E.
+    + exists (l :: ls'). split; [constructor; assumption|]. cbn [concat]. rewrite !keep_app, E. reflexivity.
+Qed.
+
+Lemma bg_attr_keep : forall k v l, cps k = s_bgcolor -> attr_spec (k, v) l -> keep is_bg l = [].
+Proof.
+  intros k v l Hk H. destruct (bg_attr_decls k v l Hk H) as [->|([[r g] b] & _ & ->)]; reflexivity.
+Qed.
+Lemma colour_attr_keep : forall k v l, cps k = s_colorattr -> attr_spec (k, v) l -> keep is_fg l = [].
+Proof.
+  intros k v l Hk H. destruct (colour_attr_decls k v l Hk H) as [->|([[r g] b] & _ & ->)]; reflexivity.
+Qed.
+
+Lemma cell_keep {A} (f : style -> option A) (get : cscore -> withspec A) (drop : style -> bool) :
+  lens f get -> (forall s, drop s = true -> f s = None) ->
+  forall inl inl', keep drop inl = keep drop inl' ->
+  forall sd p which,
+    get (core_at which (computed_style sd p inl)) = get (core_at which (computed_style sd p inl')).
+Proof.
+  intros HL Hf inl inl' E sd p which.
+  rewrite !(computed_cell f get HL), (applicable_split sd p inl), (applicable_split sd p inl'), !proj_app.
+  rewrite (proj_keep f drop which Hf inl), (proj_keep f drop which Hf inl'), E. reflexivity.
+Qed.
+
+(* All bgcolor attributes removed: every cell but the background one is the same, for the
+   element and for its ::before / ::after (no hypothesis at all) *)
+Theorem bgcolor_attr_other_cells : forall attrs inl,
+  inline_styles attrs = Ok inl ->
+  exists inl', inline_styles (remove_attr s_bgcolor attrs) = Ok inl' /\
+  forall sd p which,
+    let c := core_at which (computed_style sd p inl) in
+    let c' := core_at which (computed_style sd p inl') in
+    c_colour c = c_colour c' /\ c_display c = c_display c' /\
+    c_white_space c = c_white_space c' /\ c_content c = c_content c'.
+Proof.
+  intros attrs inl H. apply inline_styles_spec in H. destruct H as (ls & HF & ->).
+  destruct (remove_attr_spec s_bgcolor is_bg bg_attr_keep attrs ls HF) as (ls' & HF' & E).
+  exists (concat ls'). split; [apply inline_styles_spec; eauto|].
+  intros sd p which. cbv zeta. repeat split.
+  - apply (cell_keep st_colour c_colour is_bg lens_colour); [intros []; discriminate || reflexivity|exact E].
+  - apply (cell_keep st_display c_display is_bg lens_display); [intros []; discriminate || reflexivity|exact E].
+  - apply (cell_keep st_ws c_white_space is_bg lens_ws); [intros []; discriminate || reflexivity|exact E].
+  - apply (cell_keep st_content c_content is_bg lens_content); [intros []; discriminate || reflexivity|exact E].
+Qed.
+Print Assumptions bgcolor_attr_other_cells.
+
+Theorem color_attr_other_cells : forall attrs inl,
+  inline_styles attrs = Ok inl ->
+  exists inl', inline_styles (remove_attr s_colorattr attrs) = Ok inl' /\
+  forall sd p which,
+    let c := core_at which (computed_style sd p inl) in
+    let c' := core_at which (computed_style sd p inl') in
+    c_bg c = c_bg c' /\ c_display c = c_display c' /\
+    c_white_space c = c_white_space c' /\ c_content c = c_content c'.
+Proof.
+  intros attrs inl H. apply inline_styles_spec in H. destruct H as (ls & HF & ->).
+  destruct (remove_attr_spec s_colorattr is_fg colour_attr_keep attrs ls HF) as (ls' & HF' & E).
+  exists (concat ls'). split; [apply inline_styles_spec; eauto|].
+  intros sd p which. cbv zeta. repeat split.
+  - apply (cell_keep st_bg c_bg is_fg lens_bg); [intros []; discriminate || reflexivity|exact E].
+  - apply (cell_keep st_display c_display is_fg lens_display); [intros []; discriminate || reflexivity|exact E].
+  - apply (cell_keep st_ws c_white_space is_fg lens_ws); [intros []; discriminate || reflexivity|exact E].
+  - apply (cell_keep st_content c_content is_fg lens_content); [intros []; discriminate || reflexivity|exact E].
+Qed.
+Print Assumptions color_attr_other_cells.
+
+(* ---------- at the DOM level (CascadeDom.elem_bg / elem_fg, the quantities of
+   dom_colour_inherit / to_render_tree_colour) ---------- *)
+Theorem bgcolor_elem_bg : forall sd d name pre k v post idx p c,
+  let attrs := pre ++ (k, v) :: post in
+  let me := mkanc name attrs idx :: p in
+  d_colours d = true ->
+  cps k = s_bgcolor -> parse_color_attribute v = Ok (Some c) ->
+  no_attr s_style attrs = true -> no_attr s_bgcolor post = true ->
+  Forall (fun d => cd_important d = false) (proj st_bg None (applicable sd me [])) ->
+  elem_bg sd true inline_styles d me = Some c.
+Proof.
+  intros sd d name pre k v post idx p c attrs me Hd Hk Hv Hs Hb Hsheet.
+  destruct (bgcolor_attr_cell sd me pre k v post c Hk Hv Hs Hb Hsheet) as (inl & Hi & Hc).
+  unfold elem_bg, style_bg, cs_of, inls_of. rewrite Hd. subst me attrs. cbn [me_attrs a_attrs].
+  rewrite Hi, Hc. reflexivity.
+Qed.
+Print Assumptions bgcolor_elem_bg.
+
+Theorem color_elem_fg : forall sd d name pre k v post idx p c,
+  let attrs := pre ++ (k, v) :: post in
+  let me := mkanc name attrs idx :: p in
+  d_colours d = true ->
+  cps k = s_colorattr -> parse_color_attribute v = Ok (Some c) ->
+  no_attr s_style attrs = true -> no_attr s_colorattr post = true ->
+  Forall (fun d => cd_important d = false) (proj st_colour None (applicable sd me [])) ->
+  elem_fg sd true inline_styles d me = Some c.
+Proof.
+  intros sd d name pre k v post idx p c attrs me Hd Hk Hv Hs Hb Hsheet.
+  destruct (color_attr_cell sd me pre k v post c Hk Hv Hs Hb Hsheet) as (inl & Hi & Hc).
+  unfold elem_fg, style_fg, cs_of, inls_of. rewrite Hd. subst me attrs. cbn [me_attrs a_attrs].
+  rewrite Hi, Hc. reflexivity.
+Qed.
+Print Assumptions color_elem_fg.
+
+(* the text below: in the statement of dom_colour_inherit / to_render_tree_colour a tag t has
+   last_bg t = last_some (elem_bg ..) ch' None for a chain ch' of nested elements; if the
+   element is in that chain and no element further in has a background of its own, the tag
+   carries the attribute's colour *)
+Lemma last_some_nearest {X Y} (f : X -> option Y) c1 me c2 y :
+  f me = Some y -> Forall (fun m => f m = None) c2 ->
+  last_some f (c1 ++ me :: c2) None = Some y.
+Proof.
+  intros Hm Hn. rewrite last_some_app. cbn [last_some]. rewrite Hm. apply last_some_none, Hn.
+Qed.
+
+Corollary text_below_bgcolor : forall sd d name pre k v post idx p c t c1 c2,
+  let attrs := pre ++ (k, v) :: post in
+  let me := mkanc name attrs idx :: p in
+  d_colours d = true ->
+  cps k = s_bgcolor -> parse_color_attribute v = Ok (Some c) ->
+  no_attr s_style attrs = true -> no_attr s_bgcolor post = true ->
+  Forall (fun d => cd_important d = false) (proj st_bg None (applicable sd me [])) ->
+  Forall (fun m => elem_bg sd true inline_styles d m = None) c2 ->
+  last_bg t = last_some (elem_bg sd true inline_styles d) (c1 ++ me :: c2) None ->
+  last_bg t = Some c.
+Proof.
+  intros sd d name pre k v post idx p c t c1 c2 attrs me Hd Hk Hv Hs Hb Hsheet Hn ->.
+  apply last_some_nearest; [|exact Hn].
+  apply bgcolor_elem_bg; assumption.
+Qed.
+Print Assumptions text_below_bgcolor.
+
+(* ================================================================== *)
+(* 2. parse_color_attribute on the usual forms                          *)
+(* ================================================================== *)
+Definition hexc (c : chr) : Prop := is_hex (cp c) = true.
+Definition hv (c : chr) : N := hex_val (cp c).
+
+Ltac hx :=
+  unfold hexc, hv, hex_val, is_hex, wsstart, identcont, is_ident_start, is_css_ws, is_lower, is_upper,
+         is_digit in *; lia.
+
+Lemma hv_lt : forall c, hexc c -> hv c < 16.
+Proof. intros c H. unfold hv, hex_val. destruct (is_digit (cp c)) eqn:E1; [hx|]. destruct (97 <=? cp c) eqn:E2; hx. Qed.
+
+Lemma lower_hex : forall c, hexc c ->
+  hexc (lower_chr c) /\ hv (lower_chr c) = hv c /\ is_upper (cp (lower_chr c)) = false /\
+  cp (lower_chr c) < 128 /\ (cp (lower_chr c) =? 43) = false.
+Proof.
+  intros c H. unfold lower_chr. destruct (is_upper (cp c)) eqn:E; cbn [cp].
+  - unfold hexc, hv, hex_val in *. cbn [cp].
+    assert (is_digit (cp c + 32) = false) by hx. assert (is_digit (cp c) = false) by hx.
+    assert ((97 <=? cp c + 32) = true) by hx. assert ((97 <=? cp c) = false) by hx.
+    rewrite H0, H1, H2, H3. repeat split; hx.
+  - repeat split; try assumption; hx.
+Qed.
+
+Lemma nmchar_hex : forall c t, hexc c -> nmchar (c :: t) = POk (lower_chr c) t.
+Proof.
+  intros c t H. unfold nmchar, nmchar_char.
+  assert (E : (cp c =? 95) || is_lower (cp c) || is_upper (cp c) || is_digit (cp c) || (cp c =? 45) = true)
+    by hx.
+  rewrite E. reflexivity.
+Qed.
+
+Lemma hex_many : forall s, Forall hexc s -> ManyR nmchar s (map lower_chr s) [].
+Proof.
+  induction 1 as [|c s Hc HF IH]; cbn [map].
+  - apply MR_nil. reflexivity.
+  - eapply MR_cons; [apply nmchar_hex, Hc|cbn [length]; lia|exact IH].
+Qed.
+
+Lemma identstring_hex : forall c s, Forall hexc (c :: s) ->
+  parse_identstring (c :: s) = POk (map lower_chr (c :: s)) [].
+Proof.
+  intros c s H. unfold parse_identstring.
+  rewrite skip_ws_id by (inversion H; subst; cbn [nf]; hx).
+  cbn [map]. apply many1_R. apply (hex_many (c :: s)), H.
+Qed.
+
+Lemma parse_token_hash_hex : forall h c s, cp h = 35 -> Forall hexc (c :: s) ->
+  parse_token (h :: c :: s) = POk (THash (map lower_chr (c :: s))) [].
+Proof.
+  intros h c s Hh H. unfold parse_token; cbv zeta.
+  rewrite skip_ws_id by (cbn [nf]; hx). cbv beta iota.
+  assert (E1 : (cp h =? 34) || (cp h =? 39) = false) by lia. rewrite E1.
+  assert (E2 : (cp h =? 35) = true) by lia. rewrite E2.
+  rewrite identstring_hex by exact H. reflexivity.
+Qed.
+
+(* a value that is exactly one token *)
+Lemma value_toks_single : forall t tok, t <> [] -> parse_token t = POk tok [] ->
+  is_close_brace tok = false -> is_semicolon tok = false ->
+  parse_value t = POk ([tok], false) [].
+Proof.
+  intros t tok Hne Hp Hb Hs. unfold parse_value.
+  assert (HV : ValR 0 t [tok] []).
+  { eapply VR_cons.
+    - unfold vstep. rewrite Hp, Hb, Hs. reflexivity.
+    - destruct t; [congruence|cbn [length]; lia].
+    - apply VR_nil. reflexivity. }
+  rewrite (value_toks_R _ _ _ HV). cbn [pbind].
+  assert (E : ends_important [tok] = false) by (destruct tok; reflexivity).
+  rewrite E. reflexivity.
+Qed.
+
+Lemma hex_digits_fold : forall s acc, Forall hexc s ->
+  parse_hex_digits (map lower_chr s) acc = Some (fold_left (fun a c => a * 16 + hv c) s acc).
+Proof.
+  induction s as [|c s IH]; intros acc H; cbn [map parse_hex_digits fold_left]; [reflexivity|].
+  inversion H as [|? ? Hc HF]; subst. destruct (lower_hex c Hc) as (H1 & H2 & _).
+  unfold hexc in H1. rewrite H1. fold (hv (lower_chr c)). rewrite H2. apply IH, HF.
+Qed.
+
+Lemma div_mod_6 : forall a b c d e f, a < 16 -> b < 16 -> c < 16 -> d < 16 -> e < 16 -> f < 16 ->
+  let v := (((((0 * 16 + a) * 16 + b) * 16 + c) * 16 + d) * 16 + e) * 16 + f in
+  (v <=? 4294967295) = true /\
+  (v / 65536) mod 256 = a * 16 + b /\ (v / 256) mod 256 = c * 16 + d /\ v mod 256 = e * 16 + f.
+Proof. intros. cbv zeta. repeat split; zify; Z.div_mod_to_equations; lia. Qed.
+
+Lemma div_mod_3 : forall a b c, a < 16 -> b < 16 -> c < 16 ->
+  let v := ((0 * 16 + a) * 16 + b) * 16 + c in
+  (v <=? 4294967295) = true /\
+  (((v / 256) mod 16) * 17) mod 256 = a * 17 /\ (((v / 16) mod 16) * 17) mod 256 = b * 17 /\
+  ((v mod 16) * 17) mod 256 = c * 17.
+Proof. intros. cbv zeta. repeat split; zify; Z.div_mod_to_equations; lia. Qed.
+
+(* #rrggbb, hex digits of either case, any '#' character (only its code point matters) *)
+Theorem color_attr_hash6 : forall h c1 c2 c3 c4 c5 c6,
+  cp h = 35 -> hexc c1 -> hexc c2 -> hexc c3 -> hexc c4 -> hexc c5 -> hexc c6 ->
+  parse_color_attribute [h; c1; c2; c3; c4; c5; c6] =
+  Ok (Some (hv c1 * 16 + hv c2, hv c3 * 16 + hv c4, hv c5 * 16 + hv c6)).
+Proof.
+  intros h c1 c2 c3 c4 c5 c6 Hh H1 H2 H3 H4 H5 H6.
+  assert (HF : Forall hexc [c1; c2; c3; c4; c5; c6]) by (repeat constructor; assumption).
+  unfold parse_color_attribute.
+  rewrite (value_toks_single _ (THash (map lower_chr [c1; c2; c3; c4; c5; c6])));
+    [|discriminate|apply parse_token_hash_hex; assumption|reflexivity|reflexivity].
+  cbn [fst parse_color].
+  pose proof (hex_digits_fold [c1; c2; c3; c4; c5; c6] 0 HF) as HD.
+  destruct (lower_hex c1 H1) as (_ & _ & _ & L1 & P1). destruct (lower_hex c2 H2) as (_ & _ & _ & L2 & _).
+  destruct (lower_hex c3 H3) as (_ & _ & _ & L3 & _). destruct (lower_hex c4 H4) as (_ & _ & _ & L4 & _).
+  destruct (lower_hex c5 H5) as (_ & _ & _ & L5 & _). destruct (lower_hex c6 H6) as (_ & _ & _ & L6 & _).
+  assert (EU : utf8_len (map lower_chr [c1; c2; c3; c4; c5; c6]) = 6).
+  { cbn [map utf8_len]. unfold utf8_len1.
+    repeat match goal with |- context [?x <? 128] => replace (x <? 128) with true by lia end. reflexivity. }
+  rewrite EU. change (6 =? 3) with false. change (6 =? 6) with true. cbv iota.
+  cbn [map] in HD |- *. unfold parse_hex. rewrite P1, HD. cbn [fold_left].
+  destruct (div_mod_6 (hv c1) (hv c2) (hv c3) (hv c4) (hv c5) (hv c6)) as (B & Q1 & Q2 & Q3);
+    try (apply hv_lt; assumption).
+  cbv zeta in B, Q1, Q2, Q3. rewrite B, Q1, Q2, Q3. reflexivity.
+Qed.
+Print Assumptions color_attr_hash6.
+
+(* #rgb *)
+Theorem color_attr_hash3 : forall h c1 c2 c3,
+  cp h = 35 -> hexc c1 -> hexc c2 -> hexc c3 ->
+  parse_color_attribute [h; c1; c2; c3] = Ok (Some (hv c1 * 17, hv c2 * 17, hv c3 * 17)).
+Proof.
+  intros h c1 c2 c3 Hh H1 H2 H3.
+  assert (HF : Forall hexc [c1; c2; c3]) by (repeat constructor; assumption).
+  unfold parse_color_attribute.
+  rewrite (value_toks_single _ (THash (map lower_chr [c1; c2; c3])));
+    [|discriminate|apply parse_token_hash_hex; assumption|reflexivity|reflexivity].
+  cbn [fst parse_color].
+  pose proof (hex_digits_fold [c1; c2; c3] 0 HF) as HD.
+  destruct (lower_hex c1 H1) as (_ & _ & _ & L1 & P1). destruct (lower_hex c2 H2) as (_ & _ & _ & L2 & _).
+  destruct (lower_hex c3 H3) as (_ & _ & _ & L3 & _).
+  assert (EU : utf8_len (map lower_chr [c1; c2; c3]) = 3).
+  { cbn [map utf8_len]. unfold utf8_len1.
+    repeat match goal with |- context [?x <? 128] => replace (x <? 128) with true by lia end. reflexivity. }
+  rewrite EU. change (3 =? 3) with true. cbv iota.
+  cbn [map] in HD |- *. unfold parse_hex. rewrite P1, HD. cbn [fold_left].
+  destruct (div_mod_3 (hv c1) (hv c2) (hv c3)) as (B & Q1 & Q2 & Q3); try (apply hv_lt; assumption).
+  cbv zeta in B, Q1, Q2, Q3. rewrite B, Q1, Q2, Q3. reflexivity.
+Qed.
+Print Assumptions color_attr_hash3.
+
+(* colour names: the model's whole table, lower case and upper case *)
+Theorem color_attr_names :
+  Forall (fun nc => parse_color_attribute (of_ascii (fst nc)) = Ok (Some (snd nc)) /\
+                    parse_color_attribute (of_ascii (map (fun x => x - 32) (fst nc))) = Ok (Some (snd nc)))
+         named_colours.
+Proof.
+  unfold named_colours. repeat (constructor; [split; vm_compute; reflexivity|]). constructor.
+Qed.
+Print Assumptions color_attr_names.
+Example color_attr_names_nonvacuous :
+  length named_colours = 17%nat /\
+  parse_color_attribute (of_ascii [82; 101; 100]) = Ok (Some (255, 0, 0)) /\   (* "Red" *)
+  parse_color_attribute (of_ascii [114; 101; 100; 100]) = Ok None.             (* "redd" *)
+Proof. repeat split; vm_compute; reflexivity. Qed.
+
+(* ---------- the faulty form: six hex digits without '#' ---------- *)
+Definition u1 (c : chr) : Prop := utf8_len1 (cp c) = 1.
+Lemma hex_u1 : forall c, hexc c -> u1 c.
+Proof. intros c H. unfold u1, utf8_len1. replace (cp c <? 128) with true by hx. reflexivity. Qed.
+
+Lemma byte_drop_nat : forall t k, Forall u1 t -> (k <= length t)%nat ->
+  byte_drop t (N.of_nat k) = Some (skipn k t).
+Proof.
+  induction t as [|c t IH]; intros k HF Hk.
+  - cbn [length] in Hk. assert (k = 0%nat) as -> by lia. reflexivity.
+  - destruct k as [|k]; [reflexivity|]. cbn [byte_drop skipn].
+    inversion HF as [|? ? Hc HF']; subst. unfold u1 in Hc. rewrite Hc.
+    replace (N.of_nat (S k) =? 0) with false by lia.
+    replace (1 <=? N.of_nat (S k)) with true by lia.
+    replace (N.of_nat (S k) - 1) with (N.of_nat k) by lia.
+    apply IH; [exact HF'|cbn [length] in Hk; lia].
+Qed.
+Lemma byte_take_nat : forall t k, Forall u1 t -> (k <= length t)%nat ->
+  byte_take t (N.of_nat k) = Some (firstn k t).
+Proof.
+  induction t as [|c t IH]; intros k HF Hk.
+  - cbn [length] in Hk. assert (k = 0%nat) as -> by lia. reflexivity.
+  - destruct k as [|k]; [reflexivity|]. cbn [byte_take firstn].
+    inversion HF as [|? ? Hc HF']; subst. unfold u1 in Hc. rewrite Hc.
+    replace (N.of_nat (S k) =? 0) with false by lia.
+    replace (1 <=? N.of_nat (S k)) with true by lia.
+    replace (N.of_nat (S k) - 1) with (N.of_nat k) by lia.
+    rewrite IH; [reflexivity|exact HF'|cbn [length] in Hk; lia].
+Qed.
+
+Lemma parse_hex_2 : forall a b, hexc a -> hexc b -> parse_hex 255 [a; b] = Some (hv a * 16 + hv b).
+Proof.
+  intros a b Ha Hb. unfold parse_hex. replace (cp a =? 43) with false by hx.
+  cbn [parse_hex_digits]. unfold hexc in Ha, Hb. rewrite Ha, Hb. fold (hv a). fold (hv b).
+  pose proof (hv_lt a Ha). pose proof (hv_lt b Hb).
+  replace ((0 * 16 + hv a) * 16 + hv b <=? 255) with true by lia.
+  reflexivity.
+Qed.
+
+Lemma fallback_6 : forall c1 c2 c3 c4 c5 c6,
+  hexc c1 -> hexc c2 -> hexc c3 -> hexc c4 -> hexc c5 -> hexc c6 ->
+  let t := [c1; c2; c3; c4; c5; c6] in
+  parse_color_part t 0 2 = Some (hv c1 * 16 + hv c2) /\
+  parse_color_part t 2 4 = Some (hv c3 * 16 + hv c4) /\
+  parse_color_part t 4 6 = Some (hv c5 * 16 + hv c6).
+Proof.
+  intros c1 c2 c3 c4 c5 c6 H1 H2 H3 H4 H5 H6 t.
+  assert (HF : Forall u1 t) by (subst t; repeat constructor; apply hex_u1; assumption).
+  unfold parse_color_part, byte_slice. repeat split.
+  - change (byte_drop t 0) with (byte_drop t (N.of_nat 0)). rewrite byte_drop_nat by (auto; subst t; cbn [length]; lia).
+    cbn [skipn]. change (2 - 0) with (N.of_nat 2).
+    rewrite byte_take_nat by (auto; subst t; cbn [length]; lia). subst t. cbn [firstn].
+    apply parse_hex_2; assumption.
+  - change (byte_drop t 2) with (byte_drop t (N.of_nat 2)). rewrite byte_drop_nat by (auto; subst t; cbn [length]; lia).
+    subst t. cbn [skipn]. change (4 - 2) with (N.of_nat 2).
+    rewrite byte_take_nat by (repeat constructor; try apply hex_u1; auto; cbn [length]; lia).
+    cbn [firstn]. apply parse_hex_2; assumption.
+  - change (byte_drop t 4) with (byte_drop t (N.of_nat 4)). rewrite byte_drop_nat by (auto; subst t; cbn [length]; lia).
+    subst t. cbn [skipn]. change (6 - 4) with (N.of_nat 2).
+    rewrite byte_take_nat by (repeat constructor; try apply hex_u1; auto; cbn [length]; lia).
+    cbn [firstn]. apply parse_hex_2; assumption.
+Qed.
+
+Definition isdig (c : chr) : Prop := is_digit (cp c) = true.
+Definition hexletter (c : chr) : Prop := hexc c /\ is_digit (cp c) = false.
+
+Lemma parse_ident_hex : forall c s, hexletter c -> Forall hexc s ->
+  parse_ident (c :: s) = POk (lower_chr c :: map lower_chr s) [].
+Proof.
+  intros c s [Hc Hd] Hs. unfold parse_ident; cbv zeta.
+  rewrite skip_ws_id by (cbn [nf]; hx).
+  rewrite ptag_hd by hx. cbn [popt pbind].
+  unfold nmstart, nmstart_char.
+  assert (E : (cp c =? 95) || is_lower (cp c) || is_upper (cp c) = true) by hx.
+  rewrite E. cbn [palt pbind].
+  rewrite (many0_R _ _ _ _ _ (hex_many s Hs)). reflexivity.
+Qed.
+
+Ltac ifs_false :=
+  repeat (lazymatch goal with
+          | |- (if ?b then _ else _) = _ =>
+              let E := fresh "E" in assert (E : b = false) by hx; rewrite E; clear E
+          end).
+
+Lemma parse_token_identhex : forall c s, hexletter c -> Forall hexc s ->
+  parse_token (c :: s) = POk (TIdent (lower_chr c :: map lower_chr s)) [].
+Proof.
+  intros c s Hc Hs. pose proof Hc as [Hc1 Hc2]. unfold parse_token; cbv zeta.
+  rewrite skip_ws_id by (cbn [nf]; hx). cbv beta iota.
+  ifs_false.
+  assert (E : is_ident_start (cp c) = true) by hx. rewrite E.
+  unfold parse_ident_like. rewrite parse_ident_hex by assumption. reflexivity.
+Qed.
+
+Lemma digit1_app : forall ds rest acc, Forall isdig ds -> nf is_digit rest ->
+  ds <> [] \/ acc <> [] -> digit1 (ds ++ rest) acc = POk (rev acc ++ ds) rest.
+Proof.
+  induction ds as [|d ds IH]; intros rest acc Hd Hr Hne; cbn [app].
+  - destruct Hne as [Hne|Hne]; [congruence|]. rewrite app_nil_r.
+    destruct rest as [|c r]; cbn [digit1].
+    + destruct acc; [congruence|reflexivity].
+    + cbn [nf] in Hr. rewrite Hr. destruct acc; [congruence|reflexivity].
+  - inversion Hd as [|? ? Hd1 Hd2]; subst. cbn [digit1]. unfold isdig in Hd1. rewrite Hd1.
+    rewrite IH; [|exact Hd2|exact Hr|right; discriminate].
+    cbn [rev]. rewrite <- app_assoc. reflexivity.
+Qed.
+
+Definition numtok (k : token) : Prop :=
+  (exists a, k = TNumber a) \/ (exists a b, k = TDimension a b).
+
+Lemma parse_token_digit : forall d t, isdig d ->
+  parse_token (d :: t) = parse_numeric_token (d :: t).
+Proof.
+  intros d t Hd1. unfold isdig in Hd1. unfold parse_token; cbv zeta.
+  rewrite skip_ws_id by (cbn [nf]; hx). cbv beta iota.
+  ifs_false. rewrite Hd1. reflexivity.
+Qed.
+
+Lemma recognize_digits : forall d ds rest, Forall isdig (d :: ds) -> nf is_digit rest ->
+  recognize_number ((d :: ds) ++ rest) =
+  POk (firstn (length ((d :: ds) ++ rest) - length rest) ((d :: ds) ++ rest)) rest.
+Proof.
+  intros d ds rest Hd Hnf.
+  assert (Hd1 : isdig d) by (inversion Hd; assumption). unfold isdig in Hd1.
+  unfold recognize_number, parse_number; cbv zeta.
+  rewrite skip_ws_id by (cbn [app nf]; hx).
+  cbn [app]. rewrite (ptag_hd 45) by hx. rewrite (ptag_hd 43) by hx. cbn [palt popt pbind].
+  change (d :: ds ++ rest) with ((d :: ds) ++ rest).
+  rewrite digit1_app; [|exact Hd|exact Hnf|left; discriminate].
+  reflexivity.
+Qed.
+
+Lemma parse_token_digithex : forall d ds rest,
+  Forall isdig (d :: ds) -> Forall hexc rest ->
+  (rest = [] \/ exists c r, rest = c :: r /\ hexletter c) ->
+  exists tok, parse_token ((d :: ds) ++ rest) = POk tok [] /\ numtok tok.
+Proof.
+  intros d ds rest Hd Hr Hrest.
+  assert (Hd1 : isdig d) by (inversion Hd; assumption).
+  assert (Hnf : nf is_digit rest).
+  { destruct Hrest as [->|(c & r & -> & _ & Hc)]; [exact I|exact Hc]. }
+  change ((d :: ds) ++ rest) with (d :: ds ++ rest). rewrite parse_token_digit by exact Hd1.
+  change (d :: ds ++ rest) with ((d :: ds) ++ rest).
+  unfold parse_numeric_token. rewrite recognize_digits by assumption. cbn [pbind].
+  destruct Hrest as [->|(c & r & -> & Hc)].
+  - eexists. split; [reflexivity|]. left. eexists. reflexivity.
+  - pose proof Hc as [Hc1 Hc2].
+    rewrite (ptag_hd 37) by hx.
+    rewrite parse_ident_hex; [|exact Hc|inversion Hr; assumption].
+    eexists. split; [reflexivity|]. right. eexists. eexists. reflexivity.
+Qed.
+
+Lemma hex_split : forall s, Forall hexc s ->
+  exists ds rest, s = ds ++ rest /\ Forall isdig ds /\ Forall hexc rest /\
+                  (rest = [] \/ exists c r, rest = c :: r /\ hexletter c).
+Proof.
+  induction 1 as [|c s Hc HF IH].
+  - exists [], []. repeat split; auto.
+  - destruct (is_digit (cp c)) eqn:E.
+    + destruct IH as (ds & rest & -> & H1 & H2 & H3). exists (c :: ds), rest.
+      repeat split; auto.
+    + exists [], (c :: s). repeat split; auto. right. exists c, s. repeat split; auto.
+Qed.
+
+Lemma lookup_hex6_none : forall c1 c2 c3 c4 c5 c6,
+  hexc c1 -> hexc c2 -> hexc c3 -> hexc c4 -> hexc c5 -> hexc c6 ->
+  lookup_colour (map lower_chr [c1; c2; c3; c4; c5; c6]) named_colours = None.
+Proof.
+  intros c1 c2 c3 c4 c5 c6 H1 H2 H3 H4 H5 H6.
+  assert (B : forall c, hexc c ->
+              (48 <= cp (lower_chr c) <= 57) \/ (97 <= cp (lower_chr c) <= 102)).
+  { intros c H. destruct (lower_hex c H) as (A1 & _ & A2 & _). hx. }
+  pose proof (B c1 H1) as B1. pose proof (B c2 H2) as B2. pose proof (B c3 H3) as B3.
+  pose proof (B c4 H4) as B4. pose proof (B c5 H5) as B5. pose proof (B c6 H6) as B6.
+  clear B H1 H2 H3 H4 H5 H6.
+  cbn [map]. unfold lookup_colour, named_colours, is_ascii_str, cps. cbn [map lN_eqb].
+  set (x1 := cp (lower_chr c1)) in *. set (x2 := cp (lower_chr c2)) in *.
+  set (x3 := cp (lower_chr c3)) in *. set (x4 := cp (lower_chr c4)) in *.
+  set (x5 := cp (lower_chr c5)) in *. set (x6 := cp (lower_chr c6)) in *.
+  clearbody x1 x2 x3 x4 x5 x6.
+  repeat (lazymatch goal with
+          | |- (if ?b then _ else _) = _ =>
+              let E := fresh "E" in assert (E : b = false) by lia; rewrite E; clear E
+          end).
+  reflexivity.
+Qed.
+
+(* THE FAULTY FORM rrggbb (no '#'): the value is read as a number / dimension / identifier
+   token, which is no colour, and the fallback slices the trimmed attribute text.
+   Hypothesis ws c1 = ws c6 = false: the harness-supplied white-space flag (char::is_whitespace)
+   of the first and last digit, which `trim` consults; it is false for every hex digit. *)
+Theorem color_attr_nohash6 : forall c1 c2 c3 c4 c5 c6,
+  hexc c1 -> hexc c2 -> hexc c3 -> hexc c4 -> hexc c5 -> hexc c6 ->
+  ws c1 = false -> ws c6 = false ->
+  parse_color_attribute [c1; c2; c3; c4; c5; c6] =
+  Ok (Some (hv c1 * 16 + hv c2, hv c3 * 16 + hv c4, hv c5 * 16 + hv c6)).
+Proof.
+  intros c1 c2 c3 c4 c5 c6 H1 H2 H3 H4 H5 H6 W1 W6.
+  assert (HV : exists toks, parse_value [c1; c2; c3; c4; c5; c6] = POk (toks, false) [] /\
+                            parse_color toks = None).
+  { assert (HF : Forall hexc [c2; c3; c4; c5; c6]) by (repeat constructor; assumption).
+    destruct (is_digit (cp c1)) eqn:E.
+    - destruct (hex_split _ HF) as (ds & rest & Hs & Hds & Hrest & Hcase).
+      change [c1; c2; c3; c4; c5; c6] with (c1 :: [c2; c3; c4; c5; c6]). rewrite Hs.
+      change (c1 :: ds ++ rest) with ((c1 :: ds) ++ rest).
+      destruct (parse_token_digithex c1 ds rest) as (tok & Ht & Hn); [constructor; assumption|assumption|assumption|].
+      exists [tok]. split.
+      + apply value_toks_single; [discriminate|exact Ht| |];
+          destruct Hn as [(a & ->)|(a & b & ->)]; reflexivity.
+      + destruct Hn as [(a & ->)|(a & b & ->)]; reflexivity.
+    - eexists. split.
+      + apply value_toks_single; [discriminate|apply parse_token_identhex; [split; assumption|exact HF]| |];
+          reflexivity.
+      + cbn [parse_color]. apply (lookup_hex6_none c1 c2 c3 c4 c5 c6); assumption. }
+  destruct HV as (toks & HV & HC).
+  unfold parse_color_attribute. rewrite HV. cbn [fst]. rewrite HC.
+  unfold trim. cbn [drop_ws]. rewrite W1. cbn [rev app drop_ws]. rewrite W6. cbn [rev app].
+  destruct (fallback_6 c1 c2 c3 c4 c5 c6 H1 H2 H3 H4 H5 H6) as (F1 & F2 & F3). cbv zeta in F1, F2, F3.
+  rewrite F1, F2, F3. reflexivity.
+Qed.
+Print Assumptions color_attr_nohash6.
+
+(* consequently "00aabb" and "#00aabb" give the same colour, for all digits *)
+Corollary color_attr_hash_optional : forall h c1 c2 c3 c4 c5 c6,
+  cp h = 35 -> hexc c1 -> hexc c2 -> hexc c3 -> hexc c4 -> hexc c5 -> hexc c6 ->
+  ws c1 = false -> ws c6 = false ->
+  parse_color_attribute [c1; c2; c3; c4; c5; c6] = parse_color_attribute [h; c1; c2; c3; c4; c5; c6].
+Proof. intros. rewrite color_attr_hash6, color_attr_nohash6 by assumption. reflexivity. Qed.
+
+Example color_attr_forms :
+  parse_color_attribute (of_ascii [35;48;48;97;65;98;66]) = Ok (Some (0, 170, 187)) /\  (* #00aAbB *)
+  parse_color_attribute (of_ascii [48;48;97;65;98;66]) = Ok (Some (0, 170, 187)) /\     (* 00aAbB *)
+  parse_color_attribute (of_ascii [102;102;48;48;70;70]) = Ok (Some (255, 0, 255)) /\   (* ff00FF *)
+  parse_color_attribute (of_ascii [35;102;48;97]) = Ok (Some (255, 0, 170)) /\          (* #f0a *)
+  hv (mk 70 1) = 15 /\ hv (mk 97 1) = 10 /\ hv (mk 57 1) = 9.
+Proof. repeat split; vm_compute; reflexivity. Qed.
+
+Module AttrColoursExamples.
+Import PruneExamples CascadeDomExamples.
+Import String Ascii.
+Local Open Scope string_scope.
+
+(* <style>table{background-color:#010101} td{color:#020202}</style>
+   <table bgcolor="#00aabb"><tbody><tr><td color=red>x   (the model's DOM is the one the HTML
+   parser builds: with the <tbody>; a <tr> directly under <table> yields no table) *)
+Definition doc_a : list node :=
+  [el "style" [] [tx "table{background-color:#010101} td{color:#020202}"];
+   el "table" [("bgcolor", "#00aabb")]
+      [el "tbody" [] [el "tr" [] [el "td" [("color", "red")] [tx "x"]]]]].
+Definition sd_a : styledata := the_sd cfgr doc_a.
+Definition tree_a : rnode :=
+  match to_render_tree inline_styles doc_rules cfgr doc_a with Ok tr => tr | _ => rn_new IBreak end.
+Example tree_a_eq : to_render_tree inline_styles doc_rules cfgr doc_a = Ok tree_a.
+Proof. vm_compute. reflexivity. Qed.
+Example obs_a : ab_obs (render_tree rich_deco 3 ab_opts 20 tree_a) =
+  Ok [[([9472], [ABg 0 170 187])];
+      [([120], [ABg 0 170 187; AColour 255 0 0])];
+      [([9472], [ABg 0 170 187])]]%N.
+Proof. vm_compute. reflexivity. Qed.
+Example inline_a :
+  inline_styles [(t "id", t "q"); (t "bgcolor", t "#00aabb"); (t "color", t "red"); (t "bgcolor", t "zzz")]
+  = Ok [bg_decl (0, 170, 187); colour_decl (255, 0, 0)]%N.
+Proof. vm_compute. reflexivity. Qed.
+Definition pos_table_a : list anc := [mkanc (t "table") [(t "bgcolor", t "#00aabb")] 2%Z].
+Definition pos_td_a : list anc :=
+  mkanc (t "td") [(t "color", t "red")] 1%Z :: mkanc (t "tr") [] 1%Z :: mkanc (t "tbody") [] 1%Z :: pos_table_a.
+(* the sheet has a (non-important) background declaration for the table: the attribute wins *)
+Example sheet_a : proj st_bg None (applicable sd_a pos_table_a []) =
+  [mkcd false OAuthor (mkspec false 0 0 1) (1, 1, 1)]%N.
+Proof. vm_compute. reflexivity. Qed.
+Example bg_a : elem_bg sd_a true inline_styles rich_deco pos_table_a = Some (0, 170, 187)%N.
+Proof.
+  apply (bgcolor_elem_bg sd_a rich_deco (t "table") [] (t "bgcolor") (t "#00aabb") [] 2%Z []);
+    try (vm_compute; reflexivity).
+  vm_compute. repeat constructor.
+Qed.
+Example fg_a : elem_fg sd_a true inline_styles rich_deco pos_td_a = Some (255, 0, 0)%N.
+Proof.
+  apply (color_elem_fg sd_a rich_deco (t "td") [] (t "color") (t "red") [] 1%Z);
+    try (vm_compute; reflexivity).
+  vm_compute. repeat constructor.
+Qed.
+(* the seeded change (bgcolor merged as text colour) contradicts bgcolor_attr_other_cells:
+   without the attribute the table has no colour, with it the colour cell must be the same *)
+Example colour_a : ws_val (c_colour (cs_core (cs_of sd_a true inline_styles pos_table_a))) = None.
+Proof.
+  destruct (bgcolor_attr_other_cells [(t "bgcolor", t "#00aabb")] [bg_decl (0, 170, 187)%N])
+    as (inl' & Hi & H); [vm_compute; reflexivity|].
+  vm_compute in Hi. injection Hi as <-.
+  destruct (H sd_a pos_table_a None) as (Hc & _). cbv zeta in Hc.
+  change (cs_of sd_a true inline_styles pos_table_a)
+    with (computed_style sd_a pos_table_a
+            (inls_of true inline_styles (me_attrs pos_table_a))).
+  replace (inls_of true inline_styles (me_attrs pos_table_a)) with [bg_decl (0, 170, 187)%N]
+    by (vm_compute; reflexivity).
+  cbn [core_at] in Hc. rewrite Hc. vm_compute. reflexivity.
+Qed.
+End AttrColoursExamples.
